@@ -20,6 +20,8 @@ import (
 	"google.golang.org/protobuf/reflect/protoreflect"
 )
 
+var _ protoreflect.ProtoMessage
+
 func init() { extraCmds["readers"] = cmdReaders }
 
 func hashOf(b []byte) string {
@@ -71,7 +73,7 @@ var readOps = map[string]func(m proto.Message, other proto.Message) string{
 		}
 		return s
 	},
-	"Equal":   func(m, other proto.Message) string { return fmt.Sprint(proto.Equal(m, other), proto.Equal(m, m)) },
+	"Equal":   func(m, other proto.Message) string { return fmt.Sprint(proto.Equal(m, other), proto.Equal(other, m), proto.Equal(m, m)) },
 	"Clone":   func(m, _ proto.Message) string { c := proto.Clone(m); return fmt.Sprint(proto.Size(c)) },
 	"JSON":    func(m, _ proto.Message) string { b, err := protojson.Marshal(m); return fmt.Sprint(len(b) > 0, err == nil) },
 	"Project": func(m, _ proto.Message) string { b, _ := json.Marshal(proj.Project(m.ProtoReflect(), proj.WrapNone)); return hashOf(b) },
@@ -108,7 +110,10 @@ func cmdReaders(args []string) {
 		shared := mt.New().Interface()
 		proj.Fill(proj.Impl(shared), proj.Project(d.ProtoReflect(), proj.WrapNone), proj.WrapImpl)
 		if i%2 == 1 {
-			plantNil(reflect.ValueOf(shared)) // nil map values / list elements / oneof payloads
+			// nil map values / list elements: an extra empty element in every message-valued map and
+			// message list of the reference twin, the same element as a nil pointer in the struct
+			addNilEntries(shared, d)
+			plantNil(reflect.ValueOf(shared))
 		}
 		// the comparison twin and the sequential results are built WITHOUT touching the generated
 		// code's own methods before the goroutines start (dynamicpb twin; struct-level fill), so
@@ -133,6 +138,13 @@ func cmdReaders(args []string) {
 				assign := make([][]string, k)
 				for t := range assign {
 					assign[t] = []string{names[(a+t*(1+rep))%len(names)], names[(a+t+i)%len(names)]}
+				}
+				if runs == 0 {
+					// the very first concurrent use of this type in the process: every goroutine
+					// enters the generated fast paths (lazily initialised state must be race-free)
+					for t := range assign {
+						assign[t] = []string{[]string{"Size", "MarshalDet", "Marshal", "Clone"}[t%4], "Size"}
+					}
 				}
 				results := make([][]string, k)
 				start := make(chan struct{})
@@ -175,4 +187,33 @@ func cmdReaders(args []string) {
 	b, _ := json.Marshal(map[string]any{"summary": true, "runs": runs, "bad": bad, "ops": names})
 	w.Write(b)
 	w.WriteByte('\n')
+}
+
+// addNilEntries adds one element to every message list and message-valued map of the top-level
+// message: an empty message in the dynamic twin d, a nil pointer in the generated struct p.
+func addNilEntries(p proto.Message, d protoreflect.ProtoMessage) {
+	md := p.ProtoReflect().Descriptor()
+	dr := d.ProtoReflect()
+	for i := 0; i < md.Fields().Len(); i++ {
+		fd := md.Fields().Get(i)
+		switch {
+		case fd.IsMap() && fd.MapValue().Message() != nil:
+			f := structField(p, fd)
+			if f.IsNil() {
+				f.Set(reflect.MakeMap(f.Type()))
+			}
+			k := reflect.New(f.Type().Key()).Elem()
+			if f.MapIndex(k).IsValid() {
+				continue
+			}
+			f.SetMapIndex(k, reflect.Zero(f.Type().Elem()))
+			dm := dr.Mutable(fd).Map()
+			dm.Set(fd.MapKey().Default().MapKey(), dm.NewValue())
+		case fd.IsList() && fd.Message() != nil:
+			f := structField(p, fd)
+			f.Set(reflect.Append(f, reflect.Zero(f.Type().Elem())))
+			dl := dr.Mutable(fd).List()
+			dl.Append(dl.NewElement())
+		}
+	}
 }
